@@ -724,6 +724,7 @@ class SchedulingSolver(BaseModelWithJson):
         current_variable_value = None
         print("Incremental optimizer:\n======================")
         three_last_times = []
+        nb_pushed_scopes = 0
 
         if self._objective._bounds is None:
             bound = None
@@ -804,12 +805,18 @@ class SchedulingSolver(BaseModelWithJson):
                     )
                     break
             self._solver.push()
+            nb_pushed_scopes += 1
             if kind == "min":
                 self.append_z3_assertion(variable < current_variable_value)
                 print(f"\tChecking better value < {current_variable_value}")
             else:
                 self.append_z3_assertion(variable > current_variable_value)
                 print(f"\tChecking better value > {current_variable_value}")
+
+        # remove the 'better than the incumbent' bounds so that the solver can be
+        # used again (solve again, find another solution)
+        for _ in range(nb_pushed_scopes):
+            self._solver.pop()
 
         print(f"\ttotal number of iterations: {num_iter}")
         if current_variable_value is not None:
